@@ -41,6 +41,22 @@ def propagate_viability_from_node(node: AttackGraphNode) -> None:
         if child.is_viable != original_value:
             propagate_viability_from_node(child)
 
+def _has_ttc_distribution(node: AttackGraphNode) -> bool:
+    """
+    Return True if the node has a TTC probability distribution associated
+    with it, i.e. a TTC other than 'Enabled' or 'Disabled'.
+    """
+    return bool(node.ttc) and 'name' in node.ttc and \
+        node.ttc['name'] not in ['Enabled', 'Disabled']
+
+def _is_necessary_for_children(node: AttackGraphNode) -> bool:
+    """
+    Return the necessity status that the node contributes to its children.
+    Nodes that have a TTC probability distribution never transmit an
+    unnecessary state to their children.
+    """
+    return node.is_necessary or _has_ttc_distribution(node)
+
 def propagate_necessity_from_node(node: AttackGraphNode) -> None:
     """
     Arguments:
@@ -52,13 +68,12 @@ def propagate_necessity_from_node(node: AttackGraphNode) -> None:
         node.full_name, node.id, node.is_necessary
     )
 
-    if node.ttc and 'name' in node.ttc:
-        if node.ttc['name'] not in ['Enabled', 'Disabled']:
-            # Do not propagate unnecessary state from nodes that have a TTC
-            # probability distribution associated with them.
-            # TODO: Evaluate this more carefully, how do we want to have TTCs
-            # impact necessity and viability.
-            return
+    if _has_ttc_distribution(node):
+        # Do not propagate unnecessary state from nodes that have a TTC
+        # probability distribution associated with them.
+        # TODO: Evaluate this more carefully, how do we want to have TTCs
+        # impact necessity and viability.
+        return
 
     for child in node.children:
         original_value = child.is_necessary
@@ -66,7 +81,7 @@ def propagate_necessity_from_node(node: AttackGraphNode) -> None:
             child.is_necessary = False
         if child.type == 'and':
             # Evaluate before assigning: the child can be its own parent
-            child.is_necessary = any(parent.is_necessary
+            child.is_necessary = any(_is_necessary_for_children(parent)
                 for parent in child.parents)
 
         # TODO: Update TTC for child attack step before if it is not necessary
